@@ -1438,6 +1438,12 @@ func (ge *guardEnv) ensuresAt(call ssa.CallInstruction, h *ssa.Function, g Guard
 	return ge.ensuresKeyed(h, g, depth, strings.Join(keyParts, ","))
 }
 
+// ensuresAtNested: ensuresAt evaluated while another substitution may be active (the arguments are rendered
+// under it, so a chain caller → helper → helper keeps the outermost terms).
+func (ge *guardEnv) ensuresAtNested(call ssa.CallInstruction, h *ssa.Function, g Guard, depth int) bool {
+	return ge.ensuresAt(call, h, g, depth)
+}
+
 // ensures: g holds at every success return of h.
 func (ge *guardEnv) ensures(h *ssa.Function, g Guard, depth int) bool {
 	saved := ge.w.subst
@@ -1470,8 +1476,16 @@ func (ge *guardEnv) ensuresUncached(h *ssa.Function, g Guard, depth int) bool {
 		return false
 	}
 	for _, p := range pts {
-		if p.viaCallee != nil && depth > 0 && ge.ensures(p.viaCallee, g, depth-1) {
-			continue
+		if p.viaCallee != nil && depth > 0 {
+			// `return helper(args)`: the helper's success summary, in this function's terms where the
+			// call is at hand (its parameters rendered as the arguments)
+			if call := valueCall(p.val); call != nil && staticCallee(call) == p.viaCallee && len(call.Common().Args) == len(p.viaCallee.Params) {
+				if ge.ensuresAtNested(call, p.viaCallee, g, depth-1) {
+					continue
+				}
+			} else if ge.ensures(p.viaCallee, g, depth-1) {
+				continue
+			}
 		}
 		// `return check(...)`: success of the function is success of that very check
 		if p.val != nil {
